@@ -19,7 +19,7 @@ for n in "${NAMES[@]}"; do
   if ! (cd $scratch && go build ./... 2>/dev/null); then echo "SELFTEST $n: does not compile"; fail=1; rm -rf $scratch; continue; fi
   t="-"
   if [ $TESTS = 1 ]; then if (cd $scratch && go test -vet=off -count=1 ./... >/dev/null 2>&1); then t="tests-pass"; else t="TESTS-FAIL"; fi; fi
-  out=$(GVC_REPO=$scratch GVC_VERIF=$scratch/.verif-out bash -c "mkdir -p $scratch/.verif-out && cp known_findings.json unclaimed.json $scratch/.verif-out/ && ln -s /verif/replay $scratch/.verif-out/replay && ln -s /verif/witness $scratch/.verif-out/witness && ln -s /verif/witness_cmd $scratch/.verif-out/witness_cmd && bin/gvc check $prop" 2>&1)
+  out=$(GVC_REPO=$scratch GVC_VERIF=$scratch/.verif-out bash -c "mkdir -p $scratch/.verif-out && cp known_findings.json unclaimed.json sweep_baseline.json $scratch/.verif-out/ && ln -s /verif/replay $scratch/.verif-out/replay && ln -s /verif/witness $scratch/.verif-out/witness && ln -s /verif/witness_cmd $scratch/.verif-out/witness_cmd && bin/gvc check $prop" 2>&1)
   if ! echo "$out" | grep -q "^property $prop tier"; then echo "SELFTEST $n ($prop): CHECK DID NOT COMPLETE"; echo "$out" | tail -3 | cut -c1-200; fail=1; rm -rf $scratch; continue; fi
   v=$(echo "$out" | grep -c "^VIOLATION property=$prop")
   nf=$(echo "$out" | grep "^VIOLATION" | grep -c "no-failing-input-found")
